@@ -138,6 +138,34 @@ def gen_huge_case(rng, n, chunked, prog):
     return {"body": body, "chunked": chunked, "stream": stream, "chunks": chunks, "prog": prog, "seg": seg, "huge": True}
 
 
+def worker_layer(ctx):
+    """The same sentence at the level of the workers that keep connections open (gthread, async): a request whose body the
+    application leaves unread, then a second request on the same connection - the application must see exactly these two.
+    (What sits between two calls of next(parser) is the worker's: the parser object, its last message, the socket.)"""
+    import lib_env as E
+    fails = []
+    n = 0
+    trap = b"GET /from-the-body HTTP/1.1\r\nHost: x\r\n\r\n"
+    for kind in ("gthread", "async"):
+        for size in (len(trap), 1500, 70000):
+            body = (trap * (size // len(trap) + 1))[:size]
+            for chunked in (False, True):
+                hdr, enc = (layout_chunked if chunked else layout_cl)(ctx.rng, body)
+                data = b"POST /upload HTTP/1.1\r\nHost: x\r\n" + hdr + b"\r\n" + enc + b"GET /next-request HTTP/1.1\r\nHost: n\r\nConnection: close\r\n\r\n"
+                envs, errs, codes = E.run_conn(kind, {}, ("10.0.0.1", 4000), data)
+                n += 1
+                ctx.count_case(("worker", kind, size, chunked), True)
+                ctx.hist("worker_layer", "%s/%s" % (kind, "chunked" if chunked else "content-length"))
+                seen = [(e.get("REQUEST_METHOD"), e.get("RAW_URI")) for e in envs]
+                if seen != [("POST", "/upload"), ("GET", "/next-request")] or errs:
+                    fails.append(("%s worker, %s body of %d bytes left unread: the application saw %r (error statuses %r), expected POST /upload then "
+                                  "GET /next-request" % (kind, "chunked" if chunked else "Content-Length", size, seen[:4], errs[:3]),
+                                  {"kind": "c07-worker", "worker": kind, "size": size, "chunked": chunked}))
+    ctx.log("%d unread-body keep-alive connections on the real gthread / async workers: %d failures" % (n, len(fails)))
+    for text, rep in fails[:3]:
+        ctx.violation(text, rep)
+
+
 def check_case(case):
     """The property on the real code.  Returns a failure description or None."""
     spec = lp.make_spec()
@@ -216,6 +244,7 @@ def run(ctx):
             continue
         ctx.violation(f, {"kind": "c07", "stream": case["stream"].decode("latin-1"), "chunks": [c.decode("latin-1") for c in case["chunks"]],
                           "body": case["body"].decode("latin-1"), "prog": case["prog"], "failure": f})
+    worker_layer(ctx)
     bad = ctx.correspond("body", lp.HEADER, model_cases, shard=60)
     if bad:
         i, m, im = bad[0]
@@ -238,6 +267,18 @@ def run(ctx):
 
 
 def replay(rep):
+    if rep.get("kind") == "c07-worker":
+        class C:
+            rng = __import__("random").Random(1)
+            def __init__(self): self.v = []
+            def count_case(self, *a, **k): pass
+            def hist(self, *a, **k): pass
+            def log(self, *a): print(*a)
+            def violation(self, what, rep): self.v.append(what)
+        c = C()
+        worker_layer(c)
+        print("failures:", c.v)
+        return 1 if c.v else 0
     if rep.get("kind") == "c07-huge":
         import random
         bad = 0
